@@ -23,9 +23,9 @@ def mc_constants(par, np_, classes, events, hbs, drops=1, joined="{TRUE, FALSE}"
          "OppTicks": 2, "OppPeers": 1, "OppThr": 1,
          "MaxEvents": events, "MaxHb": hbs, "MaxDrops": drops,
          "InitMode": '"%s"' % init, "ClassMode": '"%s"' % classes, "InitJoined": joined,
-         "HbFilterDirect": True, "CutAtGE": True, "SendsGraft": True,
-         "JoinFilterDirect": False, "GraftNeedsStream": False,
-         "AllowDirectInFanout": False, "AllowHalf": False}
+         "HbFilterDirect": True, "CutAtGE": True, "SendsGraft": True, "BubbleToD": True,
+         "JoinFilterDirect": True, "GraftNeedsStream": False,          # D16 is repaired in /repo (5570549), D6 is not
+         "AllowDirectInFanout": True, "AllowHalf": False}
     c.update(sw)
     return c
 
@@ -56,6 +56,9 @@ def run_mc(ctx):
             jobs.append((name, mc_constants(par, np_, cls, 0, 1, joined="{TRUE}"), None, 1500, True))
     if ctx.thorough:
         jobs.append(("hb-42521", mc_constants((4, 2, 5, 2, 1), 6, "micro", 0, 1, joined="{TRUE}"), None, 1500, True))
+    # Dout >= 2 (the outbound bubble-up needs it); model-only sets where validate-compatible ones are too big for TLC
+    for par, np_ in ([((4, 3, 5, 1, 2), 6)] if not ctx.thorough else [((4, 3, 5, 1, 2), 6), ((4, 3, 6, 1, 2), 7), ((5, 3, 6, 2, 2), 7)]):
+        jobs.append(("hb-%d%d%d%d%d" % par, mc_constants(par, np_, "dout", 0, 1, joined="{TRUE}", OppTicks=1), None, 1500, True))
     # events: one (thorough: two) arbitrary event(s) and a heartbeat from every class state, joined or not
     if not ctx.thorough:
         jobs.append(("ev-21310", mc_constants((2, 1, 3, 1, 0), 3, "tiny", 1, 1), None, 600, True))
@@ -68,8 +71,8 @@ def run_mc(ctx):
     jobs.append(("bug-cut-gt", mc_constants((2, 1, 3, 1, 0), 4, "tiny", 0, 1, joined="{TRUE}", CutAtGE=False), "P_C07_Cut", 300, False))
     jobs.append(("bug-nograft", mc_constants((2, 1, 3, 1, 0), 3, "tiny", 0, 1, joined="{TRUE}", SendsGraft=False), "P_C07_Signalling", 300, False))
     jobs.append(("d6-half-stream", mc_constants((2, 1, 3, 1, 0), 2, "tiny", 2, 0, joined="{TRUE}", AllowHalf=True), "P_C07_Connected", 300, False))
-    jobs.append(("d16-direct-fanout", mc_constants((2, 1, 3, 1, 0), 2, "tiny", 2, 0, joined="{FALSE}", AllowDirectInFanout=True), "P_C07_Additions", 300, False))
-    jobs.append(("d16-fixed", mc_constants((2, 1, 3, 1, 0), 2 if not ctx.thorough else 3, "tiny", 2, 0, joined="{FALSE}", AllowDirectInFanout=True, JoinFilterDirect=True), None, 300, False))
+    jobs.append(("d16-direct-fanout", mc_constants((2, 1, 3, 1, 0), 2, "tiny", 2, 0, joined="{FALSE}", JoinFilterDirect=False), "P_C07_Additions", 300, False))
+    jobs.append(("bug-bubble-dscore", mc_constants((4, 3, 5, 1, 2), 6, "dout", 0, 1, joined="{TRUE}", BubbleToD=False, OppTicks=1), "P_C07_Cut", 300, False))
     jobs.append(("d6-fixed", mc_constants((2, 1, 3, 1, 0), 2 if not ctx.thorough else 3, "tiny", 2, 0, joined="{TRUE}", AllowHalf=True, GraftNeedsStream=True), None, 300, False))
 
     def one(job):
@@ -393,6 +396,64 @@ def directed_scenarios(rng, thorough):
     return out
 
 
+DOUT2_PARAMS = [(8, 6, 12, 4, 3), (6, 4, 8, 2, 2), DEFAULT_PARAMS]
+
+
+def cut_cycle_scenario(rng, par, cycles, equal_scores):
+    """Dout >= 2: a mesh of mixed directions is driven to Dhi again and again (the members the heartbeat cut re-GRAFT once
+    their 1 s backoff has elapsed), so that one scenario yields many over-subscription cuts with fresh random selections."""
+    d, dlo, dhi, dscore, dout = par
+    n = dhi + rng.choice([0, 1])
+    n_out = rng.randint(dout + 1, min(n - 2, dout + 3))
+    dirs = ["out"] * n_out + ["in"] * (n - n_out)
+    rng.shuffle(dirs)
+    sc = [0] * n if equal_scores else [rng.choice([0, 1, 2, 3, 4, 5]) for _ in range(n)]
+    classes = [cls(dirs[i], sc[i], member=True) for i in range(n)]
+    order = sorted(range(n), key=lambda i: dirs[i] != "in")       # inbound GRAFTs first: they are refused at Dhi
+    evs = [HB]
+    for c in range(cycles):
+        evs.append(HB)                                            # the cut; then one idle heartbeat for the backoff
+        evs.append(HB)
+        if not equal_scores:
+            for i in rng.sample(range(n), 3):
+                evs.append(ev("score", i + 1, str(rng.choice([0, 1, 2, 3, 4, 5]))))
+        for i in order:
+            evs.append(ev("graft", i + 1))
+    evs.append(HB)
+    return Builder(par, rng, "cut-cycles-dout2", pruneBackoffS=1).scenario(init_from_classes(classes, True), evs)
+
+
+def two_topic_scenario(rng, par, deterministic):
+    """Two joined topics and one heartbeat that grafts a peer in T1 (under-subscribed, the peer eligible) and prunes the
+    same peer in T2 (over-subscribed, the peer among the excess): sendGraftPrune puts both into one RPC."""
+    d, dlo, dhi, dscore, dout = par
+    n = dhi + 1
+    names = ["p%d" % (i + 1) for i in range(n)]
+    rng.shuffle(names)
+    both = names[:2] if deterministic else names[:rng.randint(2, n)]     # subscribed to T1 as well
+    acts = []
+    for i, q in enumerate(names):
+        acts.append({"a": "peer", "p": q, "proto": rng.choice(["v11", "v12", "v13", "v10"]), "dir": "in" if i < dhi - 1 else "out",
+                     "subs": ["T1", "T2"] if q in both else ["T2"]})
+    for q in names:
+        acts.append({"a": "score", "p": q, "v": -1})
+    acts += [{"a": "subscribe", "t": "T1"}, {"a": "subscribe", "t": "T2"}, {"a": "hb"}]
+    for i, q in enumerate(names):                                          # everybody joins the T2 mesh: |mesh| = Dhi + 1
+        acts.append({"a": "score", "p": q, "v": (0 if q in both else 1 + i) if deterministic else rng.choice([0, 1, 2])})
+        acts.append({"a": "graft", "p": q, "t": "T2"})
+    acts += [{"a": "hb"}, {"a": "hb"}]
+    if not deterministic:
+        for k in range(3):                                                 # again: T1 members leave, T2 fills up
+            for q in both:
+                acts.append({"a": "prune", "p": q, "t": "T1", "bo": 1})
+            acts += [{"a": "hb"}, {"a": "hb"}]
+            for q in names:
+                acts.append({"a": "graft", "p": q, "t": "T2"})
+            acts += [{"a": "hb"}]
+    cfg = base_cfg(par, n, pruneBackoffS=1)
+    return {"cfg": cfg, "acts": acts, "tag": "two-topics-graft-and-prune"}
+
+
 def py_random_scenario(rng, par, n, steps, tag):
     """Random classes and random events for peer counts the TLC generator does not reach (default parameters)."""
     d, dlo, dhi, dscore, dout = par
@@ -498,8 +559,8 @@ def read_trace(path):
 
 
 def go_parallel(n):
-    """vlib.run_go rewrites go.alt.mod on every call when VERIF_REPO points at a scratch worktree: no concurrent go runs then."""
-    return n if os.path.realpath(vlib.REPO) == "/repo" else 1
+    """Concurrent go runs (vlib.run_go writes go.alt.mod once, atomically)."""
+    return n
 
 
 def replay(ctx, scns, name, shards=4):
@@ -742,7 +803,13 @@ OBLIGATIONS = {
     "hb-allzero": "heartbeat under the all-zero parameter set",
     "graft-dropped": "GRAFT dropped on a full queue and parked for retry",
     "graft-retried": "parked GRAFT re-sent by a heartbeat",
+    "hb-graft-and-prune-same-peer": "one heartbeat grafted a peer in one topic and pruned it in another",
 }
+# obligations with a minimum count: (tag, quick, thorough, what)
+OBLIGATION_COUNTS = [
+    ("hb-cut-dout2", 150, 600, "over-subscription cuts under Dout >= 2"),
+    ("hb-cut-outbound-quota-binding", 40, 160, "cuts under Dout >= 2 that kept exactly Dout of more outbound members next to inbound ones (fewer than Dout in the selection, others rotated in)"),
+]
 
 
 def run(ctx):
@@ -753,6 +820,15 @@ def run(ctx):
         states, transitions, mc = run_mc(ctx)
     rng = random.Random(ctx.seed)
     scns = directed_scenarios(rng, ctx.thorough)
+    # Dout >= 2: many over-subscribed meshes of mixed direction, equal and distinct scores (the outbound bubble-up loops)
+    for par in DOUT2_PARAMS:
+        for k in range(10 if not ctx.thorough else 40):
+            scns.append(cut_cycle_scenario(rng, par, 10, equal_scores=(k % 2 == 0)))
+    # two joined topics: the same peer grafted in one and pruned in the other by one heartbeat
+    for par in [(4, 2, 5, 4, 0), (3, 2, 4, 3, 0)]:
+        scns.append(two_topic_scenario(rng, par, True))       # D = Dscore: the cut keeps exactly the best, the outcome is certain
+    for k in range(6 if not ctx.thorough else 30):
+        scns.append(two_topic_scenario(rng, rng.choice([(4, 2, 5, 2, 1), (4, 3, 5, 2, 1), (2, 1, 3, 1, 0), (6, 4, 8, 2, 2)]), False))
     n_dir = len(scns)
     gen, gst, gtr = gen_scenarios(ctx)
     scns += gen
@@ -812,8 +888,13 @@ def run(ctx):
                             "coverage": sorted(tags), "mesh_before": pv and pv["st"].get("mesh"), "mesh_after": ln["st"].get("mesh"),
                             "scores": pv and pv["st"].get("scores"), "events": [e for e in ln["ev"] if e["k"] in ("Graft", "Prune")]})
     missing_ob = [k for k in OBLIGATIONS if not hits.get(k)]
+    missing_ob = [OBLIGATIONS[k] for k in missing_ob]
+    for tag, nq, nt, what in OBLIGATION_COUNTS:
+        need = nt if ctx.thorough else nq
+        if hits.get(tag, 0) < need:
+            missing_ob.append("%s (%d < %d)" % (what, hits.get(tag, 0), need))
     if missing_ob and not ctx.violations:
-        raise vlib.Inconclusive("coverage obligation not met, never observed on the real router: %s" % ", ".join(OBLIGATIONS[k] for k in missing_ob))
+        raise vlib.Inconclusive("coverage obligation not met on the real router: %s" % "; ".join(missing_ob))
     if hits.get("hb-mixed", 0) > hits.get("hb", 1) // 5:
         ctx.notes.append("%d heartbeat lines could not be judged exactly (heartbeat mixed with other events)" % hits.get("hb-mixed", 0))
     cov = {"states": states, "transitions": transitions, "traces_validated_against_impl": len(traces),
